@@ -17,7 +17,7 @@ open Finset BigOperators Matrix
 set_option linter.unusedSectionVars false
 
 namespace GT.C02
-open GT
+open GT GT.Iso GT.LinAlgQ
 
 variable {K : Type*} [Field K] {n m : ℕ}
 
@@ -32,9 +32,9 @@ theorem compose_isIso {A B : Matrix (Fin (n + 1)) (Fin (n + 1)) K} (hA : IsIso A
 
 /-- `A.inv()`; moreover the inverse is `J Aᵀ J` -/
 theorem inv_isIso {A : Matrix (Fin (n + 1)) (Fin (n + 1)) K} (hA : IsIso A) :
-    IsIso (inv A) ∧ inv A = minkJ n * Aᵀ * minkJ n ∧ A * inv A = 1 := by
+    IsIso (tinv A) ∧ tinv A = minkJ n * Aᵀ * minkJ n ∧ A * tinv A = 1 := by
   refine ⟨isIso_inv hA, isIso_inv_eq hA, ?_⟩
-  unfold inv; rw [isIso_inv_eq hA]; exact isIso_mul_inv hA
+  unfold tinv; rw [isIso_inv_eq hA]; exact isIso_mul_inv hA
 
 /-- `M J Mᵀ = J ⇒ Mᵀ J M = J`: the row-matrix and column-matrix conventions agree, so
 constructors called with `column_vectors=True` need no separate treatment -/
@@ -67,7 +67,7 @@ theorem evalWordD_eq_evalWord {p : ℕ} {K : Type} [Field K] [Inhabited K] (w : 
 
 /-- the driver's `.inv()` / `utils.invert`: a Gauss–Jordan candidate is returned only with the
 exact certificate `M * B = 1`, which makes it Mathlib's inverse -/
-theorem certInv_sound {p : ℕ} {M B : Matrix (Fin p) (Fin p) ℚ} (h : certInv M = some B) : B = inv M :=
+theorem certInv_sound {p : ℕ} {M B : Matrix (Fin p) (Fin p) ℚ} (h : certInv M = some B) : B = tinv M :=
   certInv_spec h
 
 /-! ## every constructor returns an isometry -/
